@@ -26,6 +26,8 @@ val id : __ -> __
 
 val add : nat -> nat -> nat
 
+val mul : nat -> nat -> nat
+
 val sub : nat -> nat -> nat
 
 type positive =
@@ -903,6 +905,10 @@ val json_Array : z
 
 val json_Object : z
 
+val json_minBufferSize : z
+
+val json_minReadSize : z
+
 val json_sp : z
 
 val json_ht : z
@@ -1226,3 +1232,60 @@ val s_i32 : proto -> z -> bytes
 val s_list_header : proto -> z -> z -> bytes
 
 val spec_enc : deviations -> proto -> tty -> tval -> bytes
+
+type rerr =
+| REOF
+| RUnexpectedEOF
+| RFail
+
+type script = (bytes * rerr option) list
+
+val read_once : rerr -> script -> z -> (bytes * rerr option) * script
+
+val read_full :
+  nat -> rerr -> script -> z -> bytes -> (bytes * rerr option) * script
+
+type dstate = { d_buffer : bytes; d_cap : z; d_remain : bytes; d_offset : 
+                z; d_err : rerr option; d_reader : script; d_term : rerr }
+
+val d_init : script -> rerr -> dstate
+
+type dresult =
+| DValue of bytes
+| DError of rerr
+| DSyntax
+| DOutOfFuel
+
+val is_num_kind : z -> bool
+
+val read_value : nat -> nat -> z -> z -> dstate -> dresult * dstate
+
+val decode_all :
+  nat -> nat -> nat -> dstate -> bytes list -> z list -> (bytes
+  list * dresult) * z list
+
+type tstate = { t_delim : z; t_value : bytes; t_err : bool; t_depth : 
+                z; t_index : z; t_iskey : bool; t_iskey_next : bool;
+                t_json : bytes; t_stack : (z * z) list; t_kind : z }
+
+val t_init : bytes -> tstate
+
+val stack_depth : (z * z) list -> z
+
+val stack_index : (z * z) list -> z
+
+val stack_top_is : (z * z) list -> z -> bool
+
+val stack_pop : (z * z) list -> z -> (z * z) list option
+
+val stack_incr : (z * z) list -> (z * z) list
+
+val t_next : nat -> z -> tstate -> (bool * tstate) option
+
+type token = { k_value : bytes; k_delim : z; k_depth : z; k_index : z;
+               k_iskey : bool; k_kind : z; k_remaining : z }
+
+val t_run :
+  nat -> nat -> z -> tstate -> token list -> (token list * tstate) option
+
+val tokenize : bytes -> (token list * tstate) option
